@@ -427,13 +427,11 @@ func ClassifyMail(arg string, ext Ext) (Class, MailExp) {
 			}
 			v, ok, strict := decodeXtextRef(p.val)
 			if !ok || v == "" || !printableASCII(v) {
-				if ok || !hasLowerHex(p.val) {
-					return Invalid, MailExp{Why: "malformed ENVID"}
-				}
-				weaken("lower-case hex in xtext")
+				return Invalid, MailExp{Why: "malformed ENVID"}
 			}
 			if !strict {
-				weaken("lower-case hex in xtext")
+				// RFC 3461 section 4: hexchar = "+" followed by two UPPER CASE hexadecimal digits
+				return Invalid, MailExp{Why: "lower-case hexchar in ENVID"}
 			}
 			if len(p.val) > 100 {
 				weaken("ENVID longer than 100")
@@ -445,14 +443,10 @@ func ClassifyMail(arg string, ext Ext) (Class, MailExp) {
 			}
 			v, ok, strict := decodeXtextRef(p.val)
 			if !ok {
-				if hasLowerHex(p.val) {
-					weaken("lower-case hex in xtext")
-					break
-				}
 				return Invalid, MailExp{Why: "malformed AUTH xtext"}
 			}
 			if !strict {
-				weaken("lower-case hex in xtext")
+				return Invalid, MailExp{Why: "lower-case hexchar in AUTH"}
 			}
 			if v == "<>" {
 				e := ""
@@ -559,14 +553,10 @@ func ClassifyRcpt(arg string, ext Ext) (Class, RcptExp) {
 			case "RFC822":
 				v, ok, strict := decodeXtextRef(tv[1])
 				if !ok || !printableASCII(v) || v == "" {
-					if !ok && hasLowerHex(tv[1]) {
-						weaken("lower-case hex")
-						break
-					}
 					return Invalid, RcptExp{Why: "malformed ORCPT xtext"}
 				}
 				if !strict {
-					weaken("lower-case hex")
+					return Invalid, RcptExp{Why: "lower-case hexchar in ORCPT"}
 				}
 				exp.ORcptType, exp.ORcpt = "RFC822", v
 			case "UTF-8":
